@@ -63,6 +63,12 @@ func TestC13(t *testing.T) {
 		if big {
 			// crossing 65,535 needs the default / u16 limit (or wider) to be interesting
 			o.Dict = rapid.SampledFrom([]string{"", "u32", "u16", "none"}).Draw(t, "bigdict")
+			if pct(t, "bigreset", 50) {
+				// the reset regime at the 16-bit limit: a threshold above 1
+				// resets at every crossing whatever the reuse ratio is
+				v := rapid.SampledFrom([]float64{5, 1.5}).Draw(t, "bigthr")
+				o.ResetThreshold = &v
+			}
 		}
 		minb, maxb := 3, 40
 		if big {
